@@ -2452,6 +2452,28 @@ def _ast_does_io(fn: FunctionInfo) -> bool:
             name = ast.unparse(n.func)
             if name.rsplit(".", 1)[-1] in ("open", "read_text", "read_bytes", "urlopen") or name in ("json.load", "requests.get"):
                 return True
+            # rdflib: Graph.parse(location=.. / source=.. / a path) reads the file or URL it is pointed to
+            if isinstance(n.func, ast.Attribute) and n.func.attr == "parse" and (any(k.arg in ("location", "source", "file") for k in n.keywords) or n.args) and "json" not in name and "ast." not in name:
+                return True
+    return False
+
+
+def _keyed_by_file_state(cx: Cx, fn: FunctionInfo) -> bool:
+    """Some call of ``fn`` passes an argument that is computed by reading the file (read_bytes / read_text / stat /
+    getmtime / a digest of them): the cache key then follows the content, not only the location."""
+    import ast
+
+    for g in cx.model.functions.values():
+        for n in ast.walk(g.node):
+            if isinstance(n, ast.Call) and ((isinstance(n.func, ast.Name) and n.func.id == fn.name) or (isinstance(n.func, ast.Attribute) and n.func.attr == fn.name)):
+                for a in list(n.args) + [k.value for k in n.keywords]:
+                    if any(isinstance(x, ast.Call) and isinstance(x.func, ast.Attribute) and x.func.attr in ("read_bytes", "read_text", "stat", "getmtime", "hexdigest", "digest") for x in ast.walk(a)) or any(isinstance(x, ast.Attribute) and x.attr in ("st_mtime", "st_mtime_ns", "st_size") for x in ast.walk(a)):
+                        return True
+                    if isinstance(a, ast.Name):
+                        # a local bound to such a read
+                        for st_ in ast.walk(g.node):
+                            if isinstance(st_, ast.Assign) and any(isinstance(t_, ast.Name) and t_.id == a.id for t_ in st_.targets) and any(isinstance(x, ast.Call) and isinstance(x.func, ast.Attribute) and x.func.attr in ("read_bytes", "read_text", "stat", "getmtime") for x in ast.walk(st_.value)):
+                                return True
     return False
 
 
@@ -2482,6 +2504,9 @@ def memoised_io(cx: Cx, ob: Ob, roots: list[str]) -> None:
     for fn in reach:
         ob.site(f"{fn.where} {fn.qualname}", "reachable from the loaders")
         if fn.is_cached_property or any("cache" in d for d in fn.decorators):
+            if does_io(fn) and _keyed_by_file_state(cx, fn):
+                ob.undecide(f"{fn.name} is memoised, reads a file or URL, and is called with an argument computed from the file itself (its bytes / text / modification time): that this argument changes whenever the content does is not decided")
+                continue
             if does_io(fn):
                 ob.violate(
                     fn.qualname,
